@@ -932,6 +932,7 @@ def deleter_rules(ctx):
                       "node's deleter once the block is re-used)", fn.where(e), fn=fn)
     if n == 0:
         ctx.broken.append("delete_self of nodes with a stateful deleter is not instantiated")
+    delete_objects_walk(ctx)
 
 
 def list_push_rules(ctx):
@@ -1180,3 +1181,53 @@ def retire_list_pairing(ctx):
                       "list's tail pointer then refers to a node of the previous, already reclaimed batch", fn.where(firsts[0]), fn=fn)
     if n < 1:
         ctx.broken.append("LIST.head-tail-paired: retire_list::steal not found / does not reset first")
+
+
+def delete_objects_walk(ctx):
+    """DEL.delete-objects: detail::delete_objects (the one routine through which every epoch-based scheme, QSBR and the orphan hand-over destroy a
+    retire list) executed on lists of 1..5 nodes: every node is told to delete itself exactly once, its link is read before that, and the
+    caller's list head is null afterwards; orphan::~orphan applies it to every retire list it took over."""
+    from .walk import ListWalk, Stuck
+    rid = "DEL.delete-objects"
+    ctx.rule(rid, "delete_objects, executed on lists of 1..5 retired nodes, calls delete_self on every node exactly once, reads a node's link only "
+                  "before that call, and leaves the list empty; the destructor of an orphan applies it to each of its retire lists")
+    pat = R + "detail::delete_objects"
+    for fn in flow._shapes(ctx, pat):
+        bad = None
+        try:
+            for n_ in range(1, 6):
+                w = ListWalk(fn, n_)
+                w.env[fn.params[0]["name"]] = 1
+                deleted = []
+
+                def on_event(w_, e, deleted=deleted):
+                    n = fn.nodes[e]
+                    if n["k"] == "call" and n.get("callee", "").split("::")[-1] == "delete_self":
+                        v = w_.ev(fn.kids(e)[0])
+                        deleted.append(v)
+                        w_.freed.add(v)
+                w.run(lambda f, e: False, on_event=on_event)
+                if w.read_after_free:
+                    bad = "list of %d: the link of node #%d is read after the node deleted itself" % (n_, w.read_after_free[0])
+                elif sorted(deleted) != list(range(1, n_ + 1)):
+                    bad = "list of %d: delete_self called on nodes %s" % (n_, deleted)
+                elif w.env.get(fn.params[0]["name"]) != 0:
+                    bad = "list of %d: the caller's list head is not reset (the nodes would be destroyed again by the next sweep)" % n_
+                if bad:
+                    break
+        except Stuck as ex:
+            ctx.broken.append("delete_objects: walk not executable (%s)" % ex)
+            continue
+        ctx.exhaustive[rid] = True
+        ctx.check(bad is None, rid, pat + "#each-once", "lists of 1..5: each node deleted once, link read first, list head reset",
+                  "%s: retired objects are leaked, destroyed twice or read after destruction" % bad, fn.where(), fn=fn)
+    pat = R + "detail::orphan::~orphan"
+    for fn in flow._shapes(ctx, pat):
+        d = flow.find(fn, call("delete_objects"))
+        ok = False
+        if d:
+            # range-for over retire_lists: the call sits in a loop whose range is the member array itself
+            txt = " ".join(fn.expr(e) for b, i, e, n in fn.events())
+            ok = "retire_lists" in txt and any(len(fn.blocks[b]["succ"]) == 2 for b in fn.live_blocks())
+        ctx.check(ok, rid, pat + "#every-list", "delete_objects applied in a loop over retire_lists",
+                  "an orphan that is destroyed (queue of orphans drained at shutdown / adopted) must destroy every retire list it holds", fn.where(), fn=fn)
